@@ -235,7 +235,68 @@ pub fn c07_case(fam: &str, idx: usize, seed: u64) -> Option<Case> {
             sc.observe_ms = 200_000;
             Some(Case::from(sc, &k, desc, false))
         }
+        "huge" => {
+            // sources around 2^32 bytes (sparse): the size fields of Metadata / EOF and the large-file flag of every
+            // PDU. The peer is never heard and the user cancels after a few segments.
+            let lens = [u32::MAX as u64 - 1, u32::MAX as u64, u32::MAX as u64 + 1, u32::MAX as u64 + 2, (1u64 << 33) + 5];
+            let len = lens[idx % lens.len()];
+            let mut k = Knobs::base();
+            k.seg = *rng.pick(&[64u16, 1000]);
+            k.checksum = ChecksumType::Null;
+            k.crc = rng.bool();
+            k.limit = 1;
+            k.ta = 1;
+            let mut sc = two_party(&case, rng.next_u64(), &k, vec![]);
+            sc.transfers[0].src_name = "huge.bin".into();
+            sc.plant_sparse.push((0, "huge.bin".into(), len));
+            sc.rules.push(Rule { from: 0, to: 1, m: Matcher::FromIdx(0), a: Action::Drop });
+            sc.scripts.push(Script { trig: Trigger::AfterEmit(0, 2 + rng.usize(4)), delay_ms: 0, act: Act::Prim(0, PrimKind::Cancel, 0) });
+            sc.observe_ms = 30_000;
+            let desc = format!("{} sparse source of {} bytes (2^32{:+}), link dark, cancel after a few segments", k.describe(), len, len as i128 - (1i128 << 32));
+            let mut cs = Case::from(sc, &k, desc, false);
+            cs.info.desc.push_str(&format!(" len={}", len));
+            Some(cs)
+        }
         _ => None,
+    }
+}
+
+/// Oracle for the `huge` family: size fields and large-file flag (the source is all zeros, 2^32 +- a few bytes).
+pub fn judge_c07_huge(info: &Info, log: &RunLog, rep: &mut Report) {
+    let d = Dig::new(log);
+    let id = match d.id(0) {
+        Some(i) => i,
+        None => return,
+    };
+    let len: u64 = info.desc.rsplit("len=").next().and_then(|x| x.trim().parse().ok()).unwrap_or(0);
+    let want_flag = if len > u32::MAX as u64 { FileSizeFlag::Large } else { FileSizeFlag::Small };
+    let w = |head: &str| witness(log, info, head);
+    let mut n = 0;
+    for e in d.emits(0, id) {
+        n += 1;
+        let h = &e.4.header;
+        if h.large_file_flag != want_flag {
+            rep.violate("pdu-header-wrong", format!("kind={} fields=[\"file-size-flag\"] size-minus-2^32={}", kind_short(e.3), len as i128 - (1i128 << 32)), &info.case, w(&format!("source of {} bytes: emission #{} ({}) carries the {:?} file-size flag", len, e.2, kind_short(e.3), h.large_file_flag)));
+            break;
+        }
+        match &e.4.payload {
+            PDUPayload::Directive(Operations::Metadata(m)) if m.file_size != len => {
+                rep.violate("metadata-wrong", format!("size-ok=false huge size-minus-2^32={}", len as i128 - (1i128 << 32)), &info.case, w(&format!("Metadata states file size {} for a source of {} bytes", m.file_size, len)));
+            }
+            PDUPayload::Directive(Operations::EoF(x)) if x.file_size != len => {
+                rep.violate("eof-wrong", format!("size-ok=false huge size-minus-2^32={}", len as i128 - (1i128 << 32)), &info.case, w(&format!("EOF states file size {} for a source of {} bytes", x.file_size, len)));
+            }
+            PDUPayload::FileData(FileDataPDU::Unsegmented(u)) => {
+                if u.offset + u.file_data.len() as u64 > len || u.file_data.iter().any(|b| *b != 0) {
+                    rep.violate("data-bytes-wrong", "huge".into(), &info.case, w("file data beyond the source or not the source's bytes"));
+                }
+            }
+            _ => {}
+        }
+    }
+    if n > 0 {
+        rep.count("c07_huge_runs_judged");
+        rep.nontrivial(case_sig(info, log));
     }
 }
 
@@ -461,10 +522,10 @@ pub fn run_c07(tier: &str, seed: u64, replay: Option<&str>) -> (Meta, Report) {
     let meta = Meta {
         property: "C07",
         level: "exploration",
-        rule: "scripted = one real sending daemon against a scripted receiver: random sizes around segment boundaries (1..12 segments of 16/32/64/100 bytes), 1-3 NAK injections per run of shapes {overlapping, unsorted, empty list, duplicates, start>end, (x,x), reaching beyond EOF, entirely beyond EOF, longer than a segment, whole file, (0,0), random mixture}, each fired after a chosen arrival index of the first pass (so that it reaches the sender while the pass is running) or after the EOF; every third case walks the shape list systematically. two-daemon = the C01 random family and the C02 single-fault family (real receiver, immediate-mode NAKs during the first pass) judged by the same byte-level oracle, which also runs over four families of other properties' workloads (C19 rand: suspensions; C03 primseq: primitive sequences; C10 rand: cancels; C02 adaptive: long recoveries). distinct_nontrivial = distinct (config, size, event-order) signatures among runs with at least one file-data PDU checked.".into(),
+        rule: "scripted = one real sending daemon against a scripted receiver: random sizes around segment boundaries (1..12 segments of 16/32/64/100 bytes), 1-3 NAK injections per run of shapes {overlapping, unsorted, empty list, duplicates, start>end, (x,x), reaching beyond EOF, entirely beyond EOF, longer than a segment, whole file, (0,0), random mixture}, each fired after a chosen arrival index of the first pass (so that it reaches the sender while the pass is running) or after the EOF; every third case walks the shape list systematically. two-daemon = the C01 random family and the C02 single-fault family (real receiver, immediate-mode NAKs during the first pass) judged by the same byte-level oracle, huge = sparse sources of 2^32-2 .. 2^33 bytes: size fields and large-file flag of every PDU; the byte-level oracle also runs over four families of other properties' workloads (C19 rand: suspensions; C03 primseq: primitive sequences; C10 rand: cancels; C02 adaptive: long recoveries). distinct_nontrivial = distinct (config, size, event-order) signatures among runs with at least one file-data PDU checked.".into(),
         exhaustive: false,
         assumptions: vec!["NAK ranges reach at most a few segments beyond the end of the file (an unbounded range makes the sender enumerate 2^32/segment entries; recorded as an observation, not judged here)".into(), "zero-length file-data PDUs carry nothing and are only counted".into(), "first-pass tiles are recognised by position: a PDU equal to the next tile advances the cursor, every other data PDU must be covered by requests delivered earlier".into()],
-        require: vec![("c07_retransmissions_checked".into(), 500), ("c07_naks_with_obligation".into(), 300), ("c07_eof_checked".into(), 500), ("c07_metadata_checked".into(), 500), ("c07_runs_with_suspend_resume_at_sender".into(), 100)],
+        require: vec![("c07_retransmissions_checked".into(), 500), ("c07_naks_with_obligation".into(), 300), ("c07_eof_checked".into(), 500), ("c07_metadata_checked".into(), 500), ("c07_runs_with_suspend_resume_at_sender".into(), 100), ("c07_huge_runs_judged".into(), 5)],
         extra: vec![],
     };
     if let Some(r) = replay {
@@ -473,6 +534,9 @@ pub fn run_c07(tier: &str, seed: u64, replay: Option<&str>) -> (Meta, Report) {
             "C07" => c07_case(&fam, idx, sd),
             _ => crate::p_xfer::any_case(r),
         };
+        if fam == "huge" {
+            return (meta, run_single(case.expect("case"), judge_c07_huge));
+        }
         return (meta, run_single(case.expect("case"), judge_c07));
     }
     let ns = if thorough { 1_500_000 } else { 5_000 };
@@ -485,6 +549,9 @@ pub fn run_c07(tier: &str, seed: u64, replay: Option<&str>) -> (Meta, Report) {
     let n2 = 10_320 / st;
     rep.merge(run_cases(n2, "c07-c02sys1", move |i| crate::p_xfer::c02_case("sys1", i * st, seed), judge_c07));
     rep.add("cases:two-daemon-single-fault", n2 as u64);
+    let nh = if thorough { 40 } else { 10 };
+    rep.merge(run_cases(nh, "c07-huge", move |i| c07_case("huge", i, seed), judge_c07_huge));
+    rep.add("cases:huge", nh as u64);
     // the same byte-level oracle over other properties' workloads: suspensions, primitive sequences, cancels,
     // the adaptive dropper (long recoveries with many NAK rounds)
     let nx = if thorough { 100_000 } else { 800 };
